@@ -102,7 +102,7 @@ var syncMethods = map[string]string{
 	"Mutex.Lock": "MutexLock", "Mutex.Unlock": "MutexUnlock",
 	"RWMutex.Lock": "RWLock", "RWMutex.Unlock": "RWUnlock", "RWMutex.RLock": "RWRLock", "RWMutex.RUnlock": "RWRUnlock",
 	"WaitGroup.Add": "WGAdd", "WaitGroup.Done": "WGDone", "WaitGroup.Wait": "WGWait",
-	"Once.Do": "OnceDo",
+	"Once.Do":   "OnceDo",
 	"Cond.Wait": "CondWait", "Cond.Signal": "CondSignal", "Cond.Broadcast": "CondBroadcast",
 }
 
@@ -150,9 +150,6 @@ func (in *inst) calls(root ast.Node) {
 					case "encoding/gob.NewDecoder":
 						c.Args[0] = call("R", c.Args[0])
 						in.counts["io:gob-reader"]++
-					}
-					if pn.Imported().Path() == "sync/atomic" {
-						in.uninstrumented(c.Pos(), "sync/atomic call "+f.Sel.Name)
 					}
 					if pn.Imported().Path() == "time" && (f.Sel.Name == "Sleep" || f.Sel.Name == "After" || f.Sel.Name == "Tick" || f.Sel.Name == "NewTimer" || f.Sel.Name == "AfterFunc" || f.Sel.Name == "NewTicker") {
 						in.uninstrumented(c.Pos(), "time."+f.Sel.Name)
@@ -282,6 +279,77 @@ func (in *inst) hooks(pos token.Pos, rs []*ast.UnaryExpr) []ast.Stmt {
 	return out
 }
 
+// atomics lists the sync/atomic calls directly inside the given nodes.
+func (in *inst) atomics(nodes ...ast.Node) []ast.Stmt {
+	var out []ast.Stmt
+	for _, n := range nodes {
+		if n == nil || isNilNode(n) {
+			continue
+		}
+		ast.Inspect(n, func(n ast.Node) bool {
+			switch n := n.(type) {
+			case *ast.FuncLit:
+				return false
+			case *ast.CallExpr:
+				if in.isAtomicCall(n) {
+					if len(n.Args) == 0 || !pure(n.Args[0]) {
+						in.uninstrumented(n.Pos(), "sync/atomic call with an impure operand")
+						return true
+					}
+					out = append(out, &ast.ExprStmt{X: call("Atomic", n.Args[0])})
+					in.counts["atomic"]++
+				}
+			}
+			return true
+		})
+	}
+	return out
+}
+
+func (in *inst) isAtomicCall(c *ast.CallExpr) bool {
+	f, ok := c.Fun.(*ast.SelectorExpr)
+	if !ok {
+		return false
+	}
+	id, ok := f.X.(*ast.Ident)
+	if !ok {
+		return false
+	}
+	pn, ok := in.info.Uses[id].(*types.PkgName)
+	return ok && pn.Imported().Path() == "sync/atomic"
+}
+
+// pre builds the statements placed before a statement: scheduling points for its
+// receives and atomics, then the race-oracle accesses of the given parts.
+func (in *inst) pre(pos token.Pos, stmts []ast.Stmt, exprs []ast.Expr) []ast.Stmt {
+	var nodes []ast.Node
+	for _, s := range stmts {
+		if s != nil {
+			nodes = append(nodes, s)
+		}
+	}
+	for _, e := range exprs {
+		if e != nil {
+			nodes = append(nodes, e)
+		}
+	}
+	out := in.hooks(pos, in.recvs(nodes...))
+	out = append(out, in.atomics(nodes...)...)
+	var ss []ast.Stmt
+	for _, s := range stmts {
+		if s != nil {
+			ss = append(ss, s)
+		}
+	}
+	var es []ast.Expr
+	for _, e := range exprs {
+		if e != nil {
+			es = append(es, e)
+		}
+	}
+	return append(out, in.raceHooks(pos, ss, es)...)
+}
+
 func (in *inst) block(list []ast.Stmt) []ast.Stmt {
 	var out []ast.Stmt
 	for _, s := range list {
@@ -313,7 +381,7 @@ func (in *inst) stmt(s ast.Stmt) []ast.Stmt {
 		return []ast.Stmt{s}
 	case *ast.IfStmt:
 		in.funcLits(stmtNode(s.Init), exprNode(s.Cond))
-		pre := in.hooks(s.Pos(), in.recvs(stmtNode(s.Init), exprNode(s.Cond)))
+		pre := in.pre(s.Pos(), []ast.Stmt{s.Init}, []ast.Expr{s.Cond})
 		s.Body.List = in.block(s.Body.List)
 		if s.Else != nil {
 			r := in.stmt(s.Else)
@@ -329,14 +397,18 @@ func (in *inst) stmt(s ast.Stmt) []ast.Stmt {
 		if len(in.recvs(exprNode(s.Cond), stmtNode(s.Post))) > 0 {
 			in.uninstrumented(s.Pos(), "receive in a for condition/post statement")
 		}
-		pre := in.hooks(s.Pos(), in.recvs(stmtNode(s.Init)))
+		if len(in.atomics(exprNode(s.Cond), stmtNode(s.Post))) > 0 {
+			in.uninstrumented(s.Pos(), "sync/atomic call in a for condition/post statement")
+		}
+		pre := in.pre(s.Pos(), []ast.Stmt{s.Init}, nil)
 		s.Body.List = in.block(s.Body.List)
 		return append(pre, s)
 	case *ast.RangeStmt:
 		in.funcLits(s.X)
 		if !in.isChan(s.X) {
+			pre := in.pre(s.Pos(), nil, []ast.Expr{s.X})
 			s.Body.List = in.block(s.Body.List)
-			return []ast.Stmt{s}
+			return append(pre, s)
 		}
 		in.counts["range-chan"]++
 		c := ast.NewIdent(in.tmp("C"))
@@ -361,7 +433,7 @@ func (in *inst) stmt(s ast.Stmt) []ast.Stmt {
 		return append(pre, &ast.ForStmt{For: s.For, Body: &ast.BlockStmt{List: body}})
 	case *ast.SwitchStmt:
 		in.funcLits(stmtNode(s.Init), exprNode(s.Tag))
-		pre := in.hooks(s.Pos(), in.recvs(stmtNode(s.Init), exprNode(s.Tag)))
+		pre := in.pre(s.Pos(), []ast.Stmt{s.Init}, []ast.Expr{s.Tag})
 		for _, cc := range s.Body.List {
 			cl := cc.(*ast.CaseClause)
 			for _, e := range cl.List {
@@ -375,7 +447,7 @@ func (in *inst) stmt(s ast.Stmt) []ast.Stmt {
 		return append(pre, s)
 	case *ast.TypeSwitchStmt:
 		in.funcLits(stmtNode(s.Init), stmtNode(s.Assign))
-		pre := in.hooks(s.Pos(), in.recvs(stmtNode(s.Init), stmtNode(s.Assign)))
+		pre := in.pre(s.Pos(), []ast.Stmt{s.Init, s.Assign}, nil)
 		for _, cc := range s.Body.List {
 			cl := cc.(*ast.CaseClause)
 			cl.Body = in.block(cl.Body)
@@ -397,15 +469,15 @@ func (in *inst) stmt(s ast.Stmt) []ast.Stmt {
 		if len(in.recvs(s.Call)) > 0 {
 			in.uninstrumented(s.Pos(), "receive in the operands of a defer")
 		}
-		return []ast.Stmt{s}
+		return append(in.raceHooks(s.Pos(), []ast.Stmt{s}, nil), s)
 	case *ast.SendStmt:
 		in.funcLits(s.Chan, s.Value)
-		pre := in.hooks(s.Pos(), in.recvs(s.Chan, s.Value))
+		pre := in.pre(s.Pos(), []ast.Stmt{s}, nil)
 		in.counts["send"]++
 		return append(pre, &ast.ExprStmt{X: call("Send", s.Chan, s.Value)})
 	default:
 		in.funcLits(s)
-		pre := in.hooks(s.Pos(), in.recvs(s))
+		pre := in.pre(s.Pos(), []ast.Stmt{s}, nil)
 		return append(pre, s)
 	}
 }
@@ -473,7 +545,7 @@ func (in *inst) goStmt(s *ast.GoStmt) []ast.Stmt {
 	if len(in.recvs(s.Call)) > 0 {
 		in.uninstrumented(s.Pos(), "receive in the operands of a go statement")
 	}
-	var pre []ast.Stmt
+	pre := in.raceHooks(s.Pos(), []ast.Stmt{s}, nil)
 	c := s.Call
 	if id, ok := c.Fun.(*ast.Ident); ok {
 		if _, ok := in.info.Uses[id].(*types.Builtin); ok {
@@ -542,6 +614,22 @@ func fixImports(f *ast.File) {
 		}
 		gd.Specs = keep
 	}
+	if used["unsafe"] {
+		have := false
+		for _, d := range f.Decls {
+			if gd, ok := d.(*ast.GenDecl); ok && gd.Tok == token.IMPORT {
+				for _, sp := range gd.Specs {
+					if sp.(*ast.ImportSpec).Path.Value == `"unsafe"` {
+						have = true
+					}
+				}
+			}
+		}
+		if !have {
+			imp := &ast.GenDecl{Tok: token.IMPORT, Specs: []ast.Spec{&ast.ImportSpec{Path: &ast.BasicLit{Kind: token.STRING, Value: `"unsafe"`}}}}
+			f.Decls = append([]ast.Decl{imp}, f.Decls...)
+		}
+	}
 	if used["vrt"] {
 		imp := &ast.GenDecl{Tok: token.IMPORT, Specs: []ast.Spec{&ast.ImportSpec{Name: ast.NewIdent("vrt"), Path: &ast.BasicLit{Kind: token.STRING, Value: `"` + vrtPath + `"`}}}}
 		f.Decls = append([]ast.Decl{imp}, f.Decls...)
@@ -596,9 +684,6 @@ func main() {
 	rep := map[string]string{}
 	for i, f := range files {
 		in.calls(f)
-		if in.race {
-			in.raceFile(f)
-		}
 		for _, d := range f.Decls {
 			switch d := d.(type) {
 			case *ast.FuncDecl:
